@@ -136,10 +136,19 @@ func c01RunRaw(cs c01Case) (fs []F) {
 		bt = st
 	}
 	C := cs.C
+	dyn.TakeCallerDamage()
+	defer func() {
+		// the caller's own slices: the outer slice's elements and what lies behind each inner slice's length
+		if d := dyn.TakeCallerDamage(); d != "" {
+			fail("caller-slices", "%s", d)
+		}
+	}()
 	root := dyn.Alloc(bt, al(C, cs.P, cs.P))
 	win := root.Slice(cs.X, cs.X+cs.L)
+	_ = hdr(win) // (shape queries between the steps: they are pure, whatever the header remembers)
 	for i := 0; i < cs.R; i++ {
 		win.AppendSample(dyn.Tok(bt, 0))
+		_ = hdr(win)
 	}
 	off, n := C*cs.X, C*cs.L+cs.R
 	// model storage: exact Vals
@@ -154,6 +163,12 @@ func c01RunRaw(cs c01Case) (fs []F) {
 	}
 	h0 := hdr(win)
 	hr0 := hdr(root)
+	// the window as built must have the shape the model says (Slice, then R single-sample appends, with
+	// shape queries in between)
+	if want := (header{C, dyn.Types[bt].Bits, n, C * (cs.P - cs.X), ceilDiv(n, C), cs.P - cs.X}); h0 != want {
+		fail("shape", "the buffer under test has shape %+v after Slice(%d,%d) and %d AppendSample calls, want %+v", h0, cs.X, cs.X+cs.L, cs.R, want)
+		return
+	}
 	checkStore := func(when string) bool {
 		for i, w := range cells {
 			if g := root.Sample(i); !sameInt(g, w) {
